@@ -107,7 +107,14 @@ Special == { RecDoc2, ObjD(<<KVp(Kx, NumD(N1)), KVp(Kr, RecDoc2)>>), ObjD(<<KVp(
              ArrD(<<ArrD(<<NumD(N1)>>)>>), ObjD(<<KVp(Kp, ArrD(<<NumD(N1), StrD(Sa)>>))>>), ObjD(<<KVp(Kp, StrD(Sa_b))>>),
              ObjD(<<KVp(Ka, NumD(N1)), KVp(Kzz, StrD(Sa_b))>>), ObjD(<<KVp(Ka, NumD(N1)), KVp(Kzz, NumD(N1_5))>>), ObjD(<<KVp(Ka, NumD(N1)), KVp(Kzz, BoolD(TRUE))>>),
              ObjD(<<KVp(Kabc, NumD(N1)), KVp(Kabd, NumD(N1)), KVp(Kab, StrD(Ss))>>), ObjD(<<KVp(Kabc, NumD(N1)), KVp(Kzz, StrD(Ss))>>),
-             ArrD(<<NumD(N1), NumD(N1), NumD(N1)>>), ArrD(<<Null, Null>>), ArrD(<<NumD(N1), StrD(Sa), StrD(Sa)>>) }
+             ArrD(<<NumD(N1), NumD(N1), NumD(N1)>>), ArrD(<<Null, Null>>), ArrD(<<NumD(N1), StrD(Sa), StrD(Sa)>>),
+             \* a key both shortcut entries of {@K: 1, @K2: "s"} admit, next to one that only the second admits (either order of the document)
+             ObjD(<<KVp(Kab, NumD(N1)), KVp(<<120, 121>>, StrD(Ss))>>), ObjD(<<KVp(Kabd, NumD(N1)), KVp(<<120, 121>>, StrD(Ss)), KVp(Kab, NumD(N2))>>),
+             \* two properties the example does not name: each is judged on its own (the second after a container, a string, a number)
+             ObjD(<<KVp(Ka, NumD(N1)), KVp(Kx, ObjD(<<>>)), KVp(Kd, NumD(N5))>>), ObjD(<<KVp(Ka, NumD(N1)), KVp(Kx, ObjD(<<KVp(Ka, NumD(N1))>>)), KVp(Kd, ObjD(<<>>))>>),
+             ObjD(<<KVp(Ka, NumD(N1)), KVp(Kx, ArrD(<<NumD(N1)>>)), KVp(Kd, NumD(N5))>>), ObjD(<<KVp(Ka, NumD(N1)), KVp(Kx, ArrD(<<NumD(N1)>>)), KVp(Kd, ArrD(<<>>))>>),
+             ObjD(<<KVp(Ka, NumD(N1)), KVp(Kx, StrD(Ss)), KVp(Kd, NumD(N5))>>), ObjD(<<KVp(Ka, NumD(N1)), KVp(Kx, StrD(Ss)), KVp(Kd, StrD(Sa))>>),
+             ObjD(<<KVp(Kx, NumD(N2)), KVp(Ka, NumD(N1)), KVp(Kd, StrD(Sa))>>), ObjD(<<KVp(Kx, NumD(N2)), KVp(Kd, NumD(N5)), KVp(Ka, NumD(N1))>>) }
 Docs == Leaves \cup ArrDocs \cup ObjDocs \cup Special
 DocSeq == SetToSeq(Docs)
 
